@@ -287,7 +287,10 @@ class Runner:
             rep.inconc("reload refused: lock still held although the previous lifetime's lock was released like the OS would")
             return None
         except Exception as e:  # noqa: BLE001
-            if orc.json_invalid:
+            import gc
+
+            gc.collect()  # the half-constructed object's FileLock is released as a dying process' would be
+            if orc.json_invalid or h.read_sequence(orc.path)[0] == "invalid":
                 rep.count("reload_failed_on_invalid_sequence_json")
                 rep.seen("reload_failure", type(e).__name__)
             else:
